@@ -185,6 +185,50 @@ def run(ctx) -> None:
     ctx.check("R5", ok, "_convert_to_pep440 removes every character except alphanumerics . ! [ ]", "v2patterns._convert_to_pep440: separator stripping changed", "", loc=cv.loc())
     consts = {n.value for n in ast.walk(cv.node) if isinstance(n, ast.Constant) and isinstance(n.value, str)}
     ctx.check("R5", "[PYTAGNUM]" in consts and "PYTAGNUM" in consts, "_convert_to_pep440 appends [PYTAGNUM] when absent", "v2patterns._convert_to_pep440: PYTAGNUM suffix handling changed", "", loc=cv.loc())
+    # the relocation block, as a pipeline of constant string operations, applied to every short token string:
+    # afterwards the tag and its number occur exactly once, adjacent, at the end
+    blocks = [n for n in walk_no_nested(cv.node) if isinstance(n, ast.If) and "PYTAGNUM" in unparse(n.test) and isinstance(n.test, ast.Compare) and isinstance(n.test.ops[0], ast.NotIn)]
+    ctx.require(len(blocks) == 1, "_convert_to_pep440: `if 'PYTAGNUM' not in ...` block not found")
+    var = unparse(blocks[0].test.comparators[0])
+    steps: T.List[T.Tuple[str, str, str]] = []
+    for st in blocks[0].body:
+        if isinstance(st, ast.Assign) and unparse(st.targets[0]) == var and isinstance(st.value, ast.Call) and isinstance(st.value.func, ast.Attribute) \
+                and st.value.func.attr == "replace" and unparse(st.value.func.value) == var and len(st.value.args) == 2 and all(const_str(a) is not None for a in st.value.args):
+            steps.append(("replace", const_str(st.value.args[0]), const_str(st.value.args[1])))
+        elif isinstance(st, ast.AugAssign) and unparse(st.target) == var and isinstance(st.op, ast.Add) and const_str(st.value) is not None:
+            steps.append(("append", const_str(st.value), ""))
+        elif isinstance(st, ast.Expr) and isinstance(st.value, ast.Constant):
+            continue
+        else:
+            raise AnalysisError(f"C15/R5: statement `{unparse(st)[:60]}` in the PYTAGNUM relocation block is outside the model")
+    ctx.floor("R5", "operations in the PYTAGNUM relocation block", len(steps), 3)
+    import itertools
+    toks = ["X", ".", "-", "[", "]", "PYTAG", "NUM"]
+    bad_case = None
+    n_cases = 0
+    for n in range(1, 6):
+        for combo in itertools.product(toks, repeat=n):
+            txt = "".join(combo)
+            if "PYTAGNUM" in txt or not _balanced(txt) or txt.count("PYTAG") > 1 or txt.count("NUM") > 1:
+                continue
+            n_cases += 1
+            out = txt
+            for kind, a, b in steps:
+                out = out.replace(a, b) if kind == "replace" else out + a
+            if not (out.endswith("[PYTAGNUM]") and out.count("PYTAG") == 1 and out.count("NUM") == 1 and _balanced(out)):
+                bad_case = bad_case or (txt, out)
+    ctx.notes["pytagnum_cases"] = n_cases
+    ctx.check("R5", bad_case is None, f"relocation block: for all {n_cases} short patterns the result ends in [PYTAGNUM] and mentions PYTAG and NUM exactly once",
+              "v2patterns._convert_to_pep440: relocating PYTAG/NUM leaves a second tag or number behind",
+              f"pattern fragment {bad_case[0]!r} becomes {bad_case[1]!r}" if bad_case else "", loc=cv.loc(blocks[0]), witness=bad_case)
+    from checks.c09 import pep440_of_tag_rule
+    pep440_of_tag_rule(ctx, "R5")
+    from checks.c02 import omission_rule
+    omission_rule(ctx, "R5")
+    pcf = prog.function("config._parse_config")
+    pd = shapes.single_def(pcf, "pep440_version")
+    ctx.check("R5", pd is not None and unparse(pd) == "version.to_pep440(current_version)", "_parse_config: pep440_version = to_pep440(current_version)",
+              "config._parse_config: pep440_version is not the PEP440 form of current_version", unparse(pd) if pd is not None else "", loc=pcf.loc())
     tp = prog.function("version.to_pep440")
     rets = [n for n in walk_no_nested(tp.node) if isinstance(n, ast.Return)]
     ok = len(rets) == 1 and unparse(rets[0].value) == f"str(parse_version({tp.params[0]}))"
@@ -211,3 +255,15 @@ def _intersects(r: rl.R, d2: rl.DFA) -> T.Optional[str]:
                 seen.add((na, nb))
                 queue.append(((na, nb), w + ch))
     return None
+
+
+def _balanced(t: str) -> bool:
+    d = 0
+    for ch in t:
+        if ch == "[":
+            d += 1
+        elif ch == "]":
+            d -= 1
+            if d < 0:
+                return False
+    return d == 0
